@@ -299,7 +299,7 @@ func NewCluster(opt Options) (*Cluster, error) {
 		var ln net.Listener
 		if opt.Streams {
 			var err error
-			ln, err = net.Listen("tcp", "127.0.0.1:0")
+			ln, err = lendListener(i)
 			if err != nil {
 				return nil, err
 			}
